@@ -473,7 +473,9 @@ func loadTerminalEntity(ctx context.Context, c cid.Cid, blk blocks.Block, lsys *
 				}
 				from = size + from
 				if from < 0 {
-					return nil, fmt.Errorf("invalid car backend range: negative start bigger than the file size")
+					// RFC 7233 Section 2.1: if the representation is shorter than
+					// the suffix-length, the entire representation is used.
+					from = 0
 				}
 			}
 			s, ok := f.(io.Seeker)
@@ -597,7 +599,9 @@ func loadTerminalEntity(ctx context.Context, c cid.Cid, blk blocks.Block, lsys *
 				}
 				from = fileSize + from
 				if from < 0 {
-					return nil, fmt.Errorf("invalid car backend range: negative start bigger than the file size")
+					// RFC 7233 Section 2.1: if the representation is shorter than
+					// the suffix-length, the entire representation is used.
+					from = 0
 				}
 			}
 		}
